@@ -7,7 +7,8 @@ CLAIMED = {
  "C04": ("fault_enumeration",
          "Seeded simulated runs of Q-GMRES over system families x every iteration cap x preconditioner x storage x ulp-jitter, "
          "plus crash-point enumeration: a transient failure injected at every executed library line of small preconditioned solves "
-         "(exhaustive per swept solve) and at sampled lines of larger ones, plus forced LU failure. Oracles: truthful info.residual, "
+         "(exhaustive per swept solve) and at sampled lines of larger ones, plus forced LU failure, forced zero diagonal, clock scripts and client buffer reuse; "
+         "directed modes for absolute thresholds (near-identity systems at the ends of the scale range) and loss of orthogonality (n >= 8, cond 1e3, tol 1e-12). Oracles: truthful info.residual, "
          "sound converged flag, monotone history, per-cycle Krylov optimality against an independent Arnoldi/least-squares, bounded "
          "liveness (solved within n cycles once faults stop), same solution with/without preconditioner and under scaling. Sampling plus "
          "small exhaustive sub-spaces: evidence, not proof.",
@@ -15,7 +16,8 @@ CLAIMED = {
  "C14": ("exploration",
          "Histories of 1-3 simulated clients sharing solver objects, the global RNG and the clock, in 2 (quick) / 4 (thorough) import worlds, with "
          "world events and crashes; every call is compared bit-for-bit with a one-shot evaluation in a freshly forked pristine world (refinement), "
-         "arguments hashed before/after, repeats, cross-world digests. All sequences of <=3 calls from a pool of 4 problems per solver configuration "
+         "arguments hashed before/after, repeats, cross-world digests (also for off-type requests: a SparseQuaternionMatrix where a dense matrix is documented), "
+         "and a sample re-executed in two fresh interpreters that differ only in PYTHONHASHSEED (interpreter identity). All sequences of <=3 calls from a pool of 4 problems per solver configuration "
          "are enumerated exhaustively; longer histories are seeded search.",
          "3 C14", "deterministic simulation: seeded history search + exhaustive <=3-call histories, refinement against a pristine-world model"),
 }
